@@ -856,9 +856,20 @@ def cache_histories(ctx):
     select, db_session = orm.select, orm.db_session
     globals()['P'] = P                          # string queries resolve names in the calling frame's locals/globals
     rows = {i: i for i in range(1, 6)}          # id -> n
+    class Refused(Exception): pass
     def ids(q):
-        with db_session: return sorted(o.id for o in q()[:])
+        try:
+            with db_session: return sorted(o.id for o in q()[:])
+        except RecursionError: raise
+        except Exception as e:
+            ctx.count('cache:refused_steps')
+            raise Refused(type(e).__name__)
     def record(sig, case, msg): ctx.violation('cache|' + sig, dict(oracle='cache', **case), msg)
+    def answered(th, label):
+        """ids or None when Pony refuses (allowed; counted)"""
+        try: return ids(th)
+        except Refused as e:
+            ctx.count('cache:refused:%s:%s' % (label, e)); return None
     n = 0
     # H1: same query text / same code object, different values in the caller's namespace
     for rep in range(3):
@@ -871,8 +882,8 @@ def cache_histories(ctx):
                 return lambda: P.select(lambda p: p.n == v + 0)
             for name, th in (('string', site_str), ('generator', site_gen), ('lambda-closure', mk(v))):
                 n += 1
-                got = ids(th); exp = [i for i, nn in rows.items() if nn == v]
-                if got != exp:
+                got = answered(th, 'H1 ' + name); exp = [i for i, nn in rows.items() if nn == v]
+                if got is not None and got != exp:
                     record('H1 same text, other value|' + name, dict(history='H1', front=name, v=v),
                            'same query (%s) re-used with v=%r returned ids %r, Python gives %r' % (name, v, got, exp))
     # H2: a name that is the query variable at one site and an external object at the other
@@ -912,8 +923,8 @@ def cache_histories(ctx):
         text = 'p for p in P if p.%s == v' % attr
         def site(v=v): return select(text)
         with db_session: exp = sorted(o.id for o in P.select()[:] if getattr(o, attr) == v)
-        got = ids(site)
-        if got != exp: record('H3 parameter type changes', dict(history='H3', v=v), '%r with v=%r: ids %r, expected %r' % (text, v, got, exp))
+        got = answered(site, 'H3')
+        if got is not None and got != exp: record('H3 parameter type changes', dict(history='H3', v=v), '%r with v=%r: ids %r, expected %r' % (text, v, got, exp))
     # H4: a name that is a translatable builtin at one site and a user function at the other
     for order, text in (('builtin-first', 'p for p in P if p.n == len(w)'), ('user-first', 'p for p in P if p.n ==  len(w)')):
         def with_builtin(w): return select(text)
@@ -957,8 +968,8 @@ def cache_histories(ctx):
     for g, w in ((g1, 0), (g2, 1), (g1, 0)):
         for v in (1, 2):
             n += 1
-            got = ids(g['mk'](v)); exp = [i for i, nn in rows.items() if nn == v + w]
-            if got != exp: record('H5 same source, other globals', dict(history='H5', v=v, w=w), 'v=%r w=%r: ids %r expected %r' % (v, w, got, exp))
+            got = answered(g['mk'](v), 'H5'); exp = [i for i, nn in rows.items() if nn == v + w]
+            if got is not None and got != exp: record('H5 same source, other globals', dict(history='H5', v=v, w=w), 'v=%r w=%r: ids %r expected %r' % (v, w, got, exp))
     # H6: several external sub-expressions in one query keep their own values
     for a_, b_ in ((1, 1), (2, 3), (3, 2), (4, 4), (5, 1)):
         def s1(a=a_, b=b_): return select(p for p in P if p.n >= a + 0 and p.id <= b + 1 and p.n != a * 10)
@@ -968,8 +979,8 @@ def cache_histories(ctx):
         for name, th in (('generator', s1), ('string', s2), ('lambda', s3), ('two filters', s4)):
             n += 1
             exp = [i for i, nn in rows.items() if nn >= a_ and i <= b_ + 1]
-            got = ids(th)
-            if got != exp: record('H6 several externals in one query|' + name, dict(history='H6', a=a_, b=b_, front=name),
+            got = answered(th, 'H6 ' + name)
+            if got is not None and got != exp: record('H6 several externals in one query|' + name, dict(history='H6', a=a_, b=b_, front=name),
                                   '%s: a=%r b=%r: ids %r, Python gives %r' % (name, a_, b_, got, exp))
     # H7: a lambda's own closure wins over a local of the same name at the place where the query is built
     # (one lambda per front end: the same code object passed first to Entity.select and then to Query.filter is refused
@@ -1019,6 +1030,7 @@ def run(ctx):
     for f in FRONTS:
         ctx.guard('oracle 2 compared on front end ' + f, c.get('e2e:%s:ok' % f, 0) + c.get('e2e:%s:wrong' % f, 0), 200)
     ctx.guard('cache history steps', c.get('cache:history_steps', 0), 40)
+    ctx.guard('cache history steps Pony answered', c.get('cache:history_steps', 0) - c.get('cache:refused_steps', 0), 80)
     ctx.assume('ast.parse / ast.unparse / compile of CPython %d.%d define what regenerated text means' % sys.version_info[:2])
     ctx.assume('norm() folds only what CPython folds itself: signed number literals, a+bj, constant tuples, adjacent f-string literals, bare FormattedValue == one-field f-string')
     ctx.assume('SQLite in-memory database; the bound value is read from the sqlite3 driver call (vf.seams.dbapi), after Pony\'s own py2sql conversion')
